@@ -11,7 +11,7 @@ from common import Driver, DriverFailure, hx
 LEVEL = "proof"
 MANIFEST = dict(
     text="Lean 4 theorems for every item satisfying the decidable Item.WF (all shipped items except the 3 of finding D9, by C18's whole-table evaluation), every 1024-byte block and every domain value: write-then-read returns the value (read_after_write + per-kind corollaries), only bits of the item's own field change (write_touches_only_own_field), items with a disjoint field keep their value (other_items_unchanged), read-only items refuse, string forms, and the blocking/awaitable paths emit identical writes. The shift/mask/merge arithmetic is translated from accessor.py on every run; type dispatch / labels / time format are a hand model tied by a differential correspondence on the real accessors (thorough: all 20 505 items)."
-         ' Since session 3: adversarial prior contents for bit fields (the whole field equals the integer about to be merged in, and its complement) and a no-write oracle. Session 4: every stored word of a window (0..1099 plus a seeded sample of the rest) of the writable temperature items of two shipped pairs is presented in both units and written back through the blocking and the awaitable path: the device write must carry that word. Items whose labels are unusual as text (blank, padded, case twins, numeric-looking) are always chosen; an error on an in-domain write to a writable item is a violation. Session 5: write_paths_are_the_same_code (the awaitable write methods of an item and of the structure, with their one await turned into a call, ARE the blocking ones, as skeletons regenerated from the source), write_paths_keep_no_state, every_write_is_handed_over; histories of writes on one long-lived structure whose hand-off fails or is cancelled, then the same write again (twice), two under way together: every call emits the blocking path\'s write. blocking_write_refines_awaitable / blocking_temperature_write_refines_awaitable: every trace of the blocking write is the image of a trace of the awaitable one (twin_refines, rassoc_equiv in Proofs/CoopEquiv.lean). Round 14: the same writes through the real client path (c13.pending_report_scenarios: two writes behind a slow exchange, a change of mind before the spa\'s report). Round 15: two BLOCKING clients per process (real start_connect hand-shakes stepped without threads, harness/bsessions.py), sequential and with overlapping start-up; a write through one client\'s item reaches its own spa only.',
+         ' Since session 3: adversarial prior contents for bit fields (the whole field equals the integer about to be merged in, and its complement) and a no-write oracle. Session 4: every stored word of a window (0..1099 plus a seeded sample of the rest) of the writable temperature items of two shipped pairs is presented in both units and written back through the blocking and the awaitable path: the device write must carry that word. Items whose labels are unusual as text (blank, padded, case twins, numeric-looking) are always chosen; an error on an in-domain write to a writable item is a violation. Session 5: write_paths_are_the_same_code (the awaitable write methods of an item and of the structure, with their one await turned into a call, ARE the blocking ones, as skeletons regenerated from the source), write_paths_keep_no_state, every_write_is_handed_over; histories of writes on one long-lived structure whose hand-off fails or is cancelled, then the same write again (twice), two under way together: every call emits the blocking path\'s write. blocking_write_refines_awaitable / blocking_temperature_write_refines_awaitable: every trace of the blocking write is the image of a trace of the awaitable one (twin_refines, rassoc_equiv in Proofs/CoopEquiv.lean). Round 14: the same writes through the real client path (c13.pending_report_scenarios: two writes behind a slow exchange, a change of mind before the spa\'s report). Round 15: two BLOCKING clients per process (real start_connect hand-shakes stepped without threads, harness/bsessions.py), sequential and with overlapping start-up; a write through one client\'s item reaches its own spa only. Round 16: Session.blocking_declarations_are_made_for_each_connection and Session.every_blocking_set_value_is_sent over the regenerated skeletons of GeckoSpa._on_config_received / _on_set_value (the check now regenerates Skeletons itself).',
     note="Trusted: Lean kernel; translator for the three arithmetic expressions; the correspondence harness; 'applied to the block' = the spa stores struct.pack of the value at pos (as the bundled simulator does). Temperature items' unit conversion is C14.",
     technique='Lean 4 bit-level proofs (Nat.testBit) over source-translated merge arithmetic + differential correspondence of the hand model on all shipped items',
     design='5/C02',
@@ -428,7 +428,7 @@ def temp_roundtrips(ctx, only=None):
 
 
 def run(ctx):
-    st = translate.run(["AccessorArith", "Packs", "Pinned"])
+    st = translate.run(["AccessorArith", "Packs", "Pinned", "Skeletons"])
     ctx.cov["translator"] = st
     for k, v in st.items():
         if v != "ok":
